@@ -6,7 +6,8 @@
   and the update `self.rows_processed += 1`;
 * `from_arrow`: the test `if size:`, `BATCH_SIZE = min(size, BATCH_SIZE)` in that branch and
   `size = float("inf")` in the other;
-* `to_arrow`: the guard `size is not None and size >= 0` and the argument of `dataset.head(…)`;
+* `to_arrow`: the guard `size is not None and size >= 0`, the argument of `dataset.head(…)` and the
+  test `dataset.rowcount == 0` that selects the empty-columns branch;
 * `FlatColumn.arrow_field` (orso/schema.py): the two arguments of `pyarrow.decimal128(…)`
   (`self.precision or DECIMAL_PRECISION`, `10 if self.scale is None else self.scale`).
 
@@ -29,6 +30,7 @@ PINNED = {
     "from_arrow.unlimited_is_inf": True,
     "to_arrow.limit_test": "(size ≥ 0)",
     "to_arrow.head_arg": "size",
+    "to_arrow.empty_test": "(rowcount = 0)",
     "arrow_field.decimal_precision": "(match precision with | none => some (28) | some v => if v = 0 then some (28) else some v)",
     "arrow_field.decimal_scale": "(match scale with | none => some (10) | some v => some v)",
 }
@@ -162,6 +164,19 @@ def generate(o):
                 return to_lean(s.value.args[0], env_ta)
         raise KeyError("dataset = dataset.head(<arg>)")
 
+    def empty_test():
+        # `if dataset.rowcount == 0: arrays = [list() …] else: arrays = list(zip(*dataset._rows))`
+        fn = find_function(conv.tree, "to_arrow")
+        for st in if_tests(fn):
+            if "rowcount" not in ast.unparse(st.test):
+                continue
+            body = [x for x in st.body if isinstance(x, ast.Assign) and ast.unparse(x.targets[0]) == "arrays"]
+            other = [x for x in st.orelse if isinstance(x, ast.Assign) and ast.unparse(x.targets[0]) == "arrays"]
+            if len(body) == 1 and len(other) == 1 and "zip(" in ast.unparse(other[0].value) \
+                    and "zip(" not in ast.unparse(body[0].value):
+                return to_lean(st.test, {"dataset.rowcount": "rowcount"})
+        raise KeyError("if dataset.rowcount == 0: arrays = [...] else: arrays = list(zip(*rows))")
+
     # ---- arrow_field: the decimal128 call
     env_af = {"DECIMAL_PRECISION": "%d" % prec_default}
 
@@ -181,6 +196,7 @@ def generate(o):
     v["inf"] = o.item("arrowexpr.from_arrow.unlimited_is_inf", unlimited_is_inf, True)
     v["limit_test"] = o.item("arrowexpr.to_arrow.limit_test", limit_test, PINNED["to_arrow.limit_test"])
     v["head_arg"] = o.item("arrowexpr.to_arrow.head_arg", head_arg, PINNED["to_arrow.head_arg"])
+    v["empty_test"] = o.item("arrowexpr.to_arrow.empty_test", empty_test, PINNED["to_arrow.empty_test"])
     dp, ds = o.item("arrowexpr.arrow_field.decimal_args", decimal_args,
                     [PINNED["arrow_field.decimal_precision"], PINNED["arrow_field.decimal_scale"]])
 
@@ -202,6 +218,9 @@ def generate(o):
     text += "instance (a : Int) : Decidable (toArrowLimitTest a) := by unfold toArrowLimitTest; infer_instance\n"
     text += "/-- …and the argument passed to `dataset.head` -/\n"
     text += "def toArrowHeadArg (size : Int) : Int := %s\n" % v["head_arg"]
+    text += "/-- `to_arrow`: the test (on `dataset.rowcount`) under which the columns are built empty instead of by `zip(*rows)` -/\n"
+    text += "def toArrowEmptyTest (rowcount : Int) : Prop := %s\n" % v["empty_test"]
+    text += "instance (a : Int) : Decidable (toArrowEmptyTest a) := by unfold toArrowEmptyTest; infer_instance\n"
     text += "/-- schema.py `arrow_field`: first argument of `pyarrow.decimal128` from `self.precision` (`none` = Python None) -/\n"
     text += "def decimalPrecisionArg (precision : Option Int) : Option Int := %s\n" % dp
     text += "/-- …and the second from `self.scale` -/\n"
